@@ -461,7 +461,9 @@ func drive(t *testing.T, forceBin bool) {
 	}
 	rapid.Check(t, func(rt *rapid.T) {
 		c, cfg := genCase(rt, rec, known, forceBin)
+		rec.Begin(c) // if the test process itself dies (stack overflow, panic on another goroutine) the driver reports this case
 		out, err := run(c, bin)
+		rec.Done()
 		if errors.Is(err, errInconclusive) {
 			rec.Case("inconclusive", false, "", nil)
 			rec.Count("inconclusive:"+err.Error(), 1)
